@@ -376,3 +376,30 @@ func HarnessC06Tick() {
 	}
 	c06Common(e, c06Cfg{3, 2, 1}, n)
 }
+
+// ---- C06.timeout: the per-export deadline (ExportTimeout) may pass while a
+// slow exporter that does not look at its context is still running; exports
+// still never overlap, nothing is exported twice or after Shutdown
+func HarnessC06ExportTimeout() {
+	stopped := false
+	e := &c06Exporter{stopped: &stopped}
+	b := NewBatchProcessor(e, WithMaxQueueSize(2), WithExportMaxBatchSize(1), WithExportBufferSize(1),
+		WithExportInterval(time.Hour), WithExportTimeout(time.Second))
+	ctx := context.Background()
+	for i := 0; i < 2; i++ {
+		r := c06Rec(i)
+		b.OnEmit(ctx, &r)
+	}
+	if b.ForceFlush(ctx) == nil {
+		vndReach("flush-nil")
+		all := e.flat()
+		for i := 0; i < 2; i++ {
+			vndAssert(c06Count(all, i) == 1, "after-flush-every-emitted-record-exported-exactly-once")
+		}
+	}
+	if b.Shutdown(ctx) == nil {
+		vndReach("shutdown-nil")
+	}
+	vndGhostStore(&stopped, true)
+	c06Common(e, c06Cfg{queue: 2, batch: 1}, 2)
+}
